@@ -7,7 +7,8 @@
 //	        after every operation, which of the channels seen so far are closed go to the Coq model
 //	        (CMap case). Oracle: a plain Go map + awaited set (model-independent).
 //	errseq  the same for ErrMap[int,int] including GetOrSet (CErr case); a GetOrSet that does not
-//	        return within blockTimeout is observed as "blocked" and released at the end of the case.
+//	        return although it has released the limiter (ErrMap does that immediately before <-wait) is
+//	        observed as "blocked" and released at the end of the case.
 //	conc    2-4 goroutines x 1-4 operations over 2-3 keys with unique values; invocation/response
 //	        order is recorded with an atomic clock; the oracle searches for a linearisation accepted by
 //	        the Go sequential specification (Values() is one read per shard), checks that all waiters of
@@ -32,8 +33,8 @@ import (
 	"github.com/thought-machine/please/src/cmap"
 )
 
-const blockTimeout = 25 * time.Millisecond // a sequential GetOrSet that has not returned by then is "blocked"
-const wakeTimeout = 3 * time.Second         // a waiter whose key has been added must have proceeded by then
+const blockGrace = 3 * time.Millisecond // a sequential GetOrSet that has released the limiter (it is about to wait) and has not returned by then is "blocked"
+const wakeTimeout = 10 * time.Second        // a waiter whose key has been added must have proceeded by then
 
 // ---------------------------------------------------------------------------------------------
 // operations and observations
@@ -401,7 +402,7 @@ type errCaseRun struct {
 }
 
 func runErrSeq(c *lib.Ctx, sc *SeqCase) {
-	lim := &countingLimiter{}
+	lim := &countingLimiter{onRelease: make(chan struct{}, 64)}
 	m := cmap.NewErrMap[int, int](uint64(sc.Nsh), hasherOf(sc.Hash), lim)
 	sc.Res = nil
 	run := errCaseRun{}
@@ -429,10 +430,17 @@ func runErrSeq(c *lib.Ctx, sc *SeqCase) {
 			}()
 			select {
 			case r = <-done:
-			case <-time.After(blockTimeout):
+			case <-lim.onRelease: // about to wait on the channel
+				select {
+				case r = <-done:
+				case <-time.After(blockGrace):
+					r.Blocked = true
+					run.pending = append(run.pending, done)
+					run.keys = append(run.keys, o.K)
+				}
+			case <-time.After(wakeTimeout):
+				c.Fail("getorset-hangs", fmt.Sprintf("GetOrSet(%d) neither returned nor started to wait", o.K), sc)
 				r.Blocked = true
-				run.pending = append(run.pending, done)
-				run.keys = append(run.keys, o.K)
 			}
 		default:
 			panic("bad op " + o.Op)
@@ -455,10 +463,20 @@ func runErrSeq(c *lib.Ctx, sc *SeqCase) {
 	}
 }
 
-type countingLimiter struct{ acquired, released atomic.Int64 }
+// countingLimiter also tells the harness that GetOrSet is about to wait: ErrMap releases the limiter
+// immediately before <-wait, so "blocked" is observed without guessing from a timeout.
+type countingLimiter struct {
+	acquired, released atomic.Int64
+	onRelease          chan struct{}
+}
 
 func (l *countingLimiter) Acquire() { l.acquired.Add(1) }
-func (l *countingLimiter) Release() { l.released.Add(1) }
+func (l *countingLimiter) Release() {
+	l.released.Add(1)
+	if l.onRelease != nil {
+		l.onRelease <- struct{}{}
+	}
+}
 
 func oracleErrSeq(c *lib.Ctx, sc *SeqCase) {
 	s := newSpec()
@@ -679,7 +697,10 @@ func runConc(cc *ConcCase, seed uint64) (hist []HOp, fails [][2]string) {
 			defer done[g].Store(true)
 			r := lib.NewRng(seed*1000003 + uint64(g))
 			arrived.Add(1)
-			for arrived.Load() < int64(n) {
+			for i := 0; arrived.Load() < int64(n); i++ {
+				if i > 300 {
+					runtime.Gosched()
+				}
 			}
 			for _, o := range cc.Progs[g] {
 				jitter(r)
@@ -711,7 +732,7 @@ func runConc(cc *ConcCase, seed uint64) (hist []HOp, fails [][2]string) {
 		return false
 	}
 	deadline := time.Now().Add(wakeTimeout)
-	for {
+	for iter := 0; ; iter++ {
 		quiet := true
 		var stuck []int
 		for g := 0; g < n; g++ {
@@ -739,7 +760,7 @@ func runConc(cc *ConcCase, seed uint64) (hist []HOp, fails [][2]string) {
 				deadline = time.Now().Add(wakeTimeout)
 			}
 		}
-		if time.Now().After(deadline) {
+		if iter%64 == 63 && time.Now().After(deadline) {
 			for g := 0; g < n; g++ {
 				if k := parked[g].Load(); k != 0 && !done[g].Load() {
 					failf("wakeup-lost", "goroutine %d waits on the channel of key %d; the key has been added and the goroutine was not released", g, k-1)
@@ -748,7 +769,9 @@ func runConc(cc *ConcCase, seed uint64) (hist []HOp, fails [][2]string) {
 			return hist, fails // leaked goroutines stay blocked; the run reports the violation
 		}
 		runtime.Gosched()
-		time.Sleep(5 * time.Microsecond)
+		if iter > 200 {
+			time.Sleep(20 * time.Microsecond)
+		}
 	}
 	wg.Wait()
 	sort.SliceStable(hist, func(i, j int) bool { return hist[i].Inv < hist[j].Inv })
@@ -985,8 +1008,13 @@ func valueKeys(cc *ConcCase, hist []HOp) map[int]int {
 }
 
 // checkConc runs one concurrent case once; returns the linearisation (nil when a failure was reported).
+var tRun, tLin time.Duration
+
 func checkConc(c *lib.Ctx, cc *ConcCase, seed uint64) []linOp {
+	t0 := time.Now()
 	hist, fails := runConc(cc, seed)
+	tRun += time.Since(t0)
+	defer func(t time.Time) { tLin += time.Since(t) }(time.Now())
 	cc.Hist = hist
 	c.Oracle()
 	for _, f := range fails {
@@ -1246,13 +1274,14 @@ func main() {
 		for i, n := 0, c.Scale(700, 12000); i < n; i++ {
 			doSeq(c, genSeq(c.Rng.Fork()))
 		}
-		// 2. sequential ErrMap (a few with waiting GetOrSet calls: each costs blockTimeout)
+		// 2. sequential ErrMap (a few with waiting GetOrSet calls: each costs blockGrace)
 		doErrSeq(c, &SeqCase{Kind: "errseq", Nsh: 4, Hash: []uint64{0, 1}, Ops: []Op{{Op: "get", K: 0}, {Op: "getorset", K: 0, V: 3}}})
 		doErrSeq(c, &SeqCase{Kind: "errseq", Nsh: 1, Hash: []uint64{0, 1}, Ops: []Op{{Op: "getorset", K: 0, V: 3, E: 2}, {Op: "getorset", K: 0, V: 4}, {Op: "get", K: 0}, {Op: "seterror", K: 1, E: 1}, {Op: "getorset", K: 1, V: 2}}})
 		nblock := c.Scale(25, 300)
 		for i, n := 0, c.Scale(300, 6000); i < n; i++ {
 			doErrSeq(c, genErrSeq(c.Rng.Fork(), i < nblock))
 		}
+		t1 := time.Now()
 		// 3. concurrent histories
 		nconc, nlin := c.Scale(2500, 60000), c.Scale(350, 6000)
 		emitted := 0
@@ -1294,12 +1323,15 @@ func main() {
 				c.Eval(cc, key, shared)
 			}
 		}
+		t2 := time.Now()
 		// 4. stampedes
 		for i, n := 0, c.Scale(1500, 30000); i < n; i++ {
 			stampedeWait(c, c.Rng.Fork())
 			stampedeGetOrSet(c, c.Rng.Fork())
 		}
-		c.Note("GOMAXPROCS=%d; blockTimeout=%s; linearisations replayed through the Coq model and specification: %d", runtime.GOMAXPROCS(0), blockTimeout, emitted)
+		c.Note("run %s lin %s", tRun, tLin)
+		c.Note("wall: concurrent histories %s, stampedes %s", t2.Sub(t1).Round(time.Millisecond), time.Since(t2).Round(time.Millisecond))
+		c.Note("GOMAXPROCS=%d; blockGrace=%s; linearisations replayed through the Coq model and specification: %d", runtime.GOMAXPROCS(0), blockGrace, emitted)
 	})
 }
 
